@@ -3,7 +3,7 @@ import json
 import os
 import re
 import subprocess
-from lib import cfg, core
+from lib import cfg, core, narrow
 from lib.bits import MayBits
 from lib.must import Must
 
@@ -132,6 +132,9 @@ def run(chk):
                 got = MayBits(e32, 32, unknown_full=("value",)).eval(x["rhs"], i, known=mb.known_equalities(i))
         chk.ob(R4, "encode_offset32|%s" % name, got == want, loc=UNIT,
                detail="ADR/ADRP case can set bits %s, database relS field occupies %08X" % ("%08X" % got if got is not None else None, want))
+
+    # ---------------------------------------------------------------- C17.e no silent truncation of the 64-bit displacement
+    narrow.run(chk, [e32, e64, wo], floor=2)
 
     return chk.finish(
         level="other",
